@@ -60,13 +60,6 @@ def getWrites (j : Json) (k : String) : Except String (List (Nat × List Nat)) :
     let hx ← e.getObjValAs? String "b"
     pure (off, ofHex hx)
 
-def failOf : String → Fail
-  | "early" => .early
-  | "unload" => .unload
-  | "serialize" => .serialize
-  | "protoSave" => .protoSave
-  | _ => .none
-
 def optNatJ : Option Nat → Json
   | none => Json.null
   | some n => toJson n
@@ -88,8 +81,6 @@ def handle : Handler := fun m j =>
         (← getNat j "athr") (← getNats j "sizes")))]
   | "layout.shard_st" => some do
       return obj [("r", natListsJ (shardSt id (← getOptNat j "max") (← getNats j "sizes")))]
-  | "layout.shard_st_unfixed" => some do
-      return obj [("r", natListsJ (shardStGoUnfixed id (← getNat j "max") [] 0 (← getNats j "sizes")))]
   | "layout.filename" => some do
       let base ← getStr j "base"
       return obj [("r", Json.str (String.ofList (shardFilename base.toList (← getNat j "idx")
@@ -123,10 +114,8 @@ def handle : Handler := fun m j =>
             let xs ← a.toList.mapM (·.getNat?)
             pure (some xs)
         | _ => pure none
-      let (ext, _) := splitRaw thr vs
-      let bs := ext.map fun k => (vb.getD k default).2
       let consts := unloadRaw vs thr mx al athr
-      let files := dataFiles bs mx al athr sched
+      let files := saveRawFiles vb thr mx al athr sched
       let total := files.length
       let cj := consts.map fun c => match c with
         | .same => Json.str "S"
@@ -164,30 +153,35 @@ def handle : Handler := fun m j =>
   | "layout.read" => some do
       return obj [("r", Json.str (toHex (readAt (ofHex (← getStr j "img")) (← getNat j "off")
         (← getNat j "len"))))]
-  | "layout.save_store" => some do
-      -- store given as list of [valueId, tensorId or null]; default none
+  | "layout.save_run" => some do
+      -- the save as an effect sequence: store before (tensor id or null per initializer position),
+      -- where it stops ("phase" + "occ", or "none"), store at that moment and at the end
+      let vs ← getInits j "inits"
+      let thr ← getInt j "thr"
+      let fresh ← getNat j "fresh"
       let cells ← getArr j "store"
-      let cells ← cells.mapM fun e => do
-        let v ← e.getArrVal? 0 >>= (·.getNat?)
-        let t ← e.getArrVal? 1
-        let t ← match t with
-          | Json.null => pure none
-          | x => do let n ← x.getNat?; pure (some n)
-        pure (v, t)
-      let st : Store := fun v => (cells.lookup v).join
-      let inits ← getNats j "inits"
-      let rp ← getArr j "repoint"
-      let rp ← rp.mapM fun e => do
-        let v ← e.getArrVal? 0 >>= (·.getNat?)
-        let t ← e.getArrVal? 1
-        let t ← match t with
-          | Json.null => pure none
-          | x => do let n ← x.getNat?; pure (some n)
-        pure (v, t)
-      let (mid, fin) := saveStore st inits rp (failOf (← getStr j "fail"))
-      let dump (s : Store) : Json := Json.arr ((cells.map fun (v, _) =>
-        Json.arr #[toJson v, optNatJ (s v)]).toArray)
-      return obj [("mid", dump mid), ("fin", dump fin)]
+      let cells ← cells.mapM fun t => match t with
+        | Json.null => pure (none : Option Nat)
+        | x => do let n ← x.getNat?; pure (some n)
+      let st : Store := fun v => (cells[v]?).join
+      let plan := if (← getStr j "backend") = "st" then stPlan vs thr fresh else rawPlan vs thr fresh
+      let phase ← getStr j "phase"
+      let occ := (getNat j "occ").toOption.getD 0
+      let ph? : Option Phase := match phase with
+        | "validate" => some .validate
+        | "loadMem" => some .loadMem
+        | "write" => some .write
+        | "serialize" => some .serialize
+        | "protoSave" => some .protoSave
+        | _ => none
+      let stop ← match ph? with
+        | none => pure none
+        | some ph => match pointIndex ph occ plan.prog with
+          | some n => pure (some n)
+          | none => throw s!"no point {phase} #{occ} in the program"
+      let (mid, fin) := saveRun st plan stop
+      let dump (s : Store) : Json := Json.arr ((List.range cells.length).map fun v => optNatJ (s v)).toArray
+      return obj [("mid", dump mid), ("fin", dump fin), ("snapshot", natsJ plan.snapshot)]
   | _ => none
 
 end IrVerif.Drive.Layout
